@@ -1044,18 +1044,7 @@ func (m *c50o) ruleO1O4() {
 			return
 		}
 		// conditions that already hold when the node is created say which statement is being built, not when the option is overridden
-		drop := map[string]bool{}
-		if id, ok := ast.Unparen(ov.nodeX).(*ast.Ident); ok {
-			if o := ov.fn.pk.TypesInfo.Uses[id]; o != nil {
-				if ds := ov.fn.defStmt[o]; ds != nil {
-					if dg, ok := ov.fn.guards(ds); ok {
-						for _, a := range dg {
-							drop[a.String()] = true
-						}
-					}
-				}
-			}
-		}
+		drop := m.creationGuards(ov)
 		var keep []c50Atom
 		for _, a := range gs {
 			if !drop[a.String()] {
@@ -1076,6 +1065,15 @@ func (m *c50o) ruleO1O4() {
 		}
 		if ov.as.Tok != token.ASSIGN {
 			val = ov.as.Tok.String() + " " + val
+		} else if dv := m.defaults[ov.opt]; dv != nil && dv.Kind() == constant.String && constant.StringVal(dv) == "" {
+			// the default is the empty string: "only when the given text is non-empty" changes nothing
+			var k2 []c50Atom
+			for _, a := range keep {
+				if !(a.Kind == "len" && a.Op == ">=" && a.K == 1 && a.T == val) {
+					k2 = append(k2, a)
+				}
+			}
+			keep = k2
 		}
 		g := c50conj(keep)
 		if g == "" {
@@ -1103,6 +1101,21 @@ func (m *c50o) ruleO1O4() {
 			pos = a[0].pos
 		}
 		ra, rb := render(a), render(b)
+		// an option that the reader ignores altogether (named exception of C50-D3) cannot be plumbed differently in an observable way
+		ignored := 0
+		carried := 0
+		for k, o := range m.carriers {
+			if o == opt {
+				carried++
+				if _, ok := c50Exceptions[k]; ok {
+					ignored++
+				}
+			}
+		}
+		if carried > 0 && ignored == carried && !c.fixtureMode {
+			c.Exc("C50-O1", opt, pos, "the LOAD DATA reader ignores this option ("+c50Exceptions[c50firstKey(m.carriers, opt)]+"): the two override predicates (today: ["+ra+"] / ["+rb+"]) cannot disagree observably")
+			continue
+		}
 		if os.Getenv("C50DEBUG") != "" {
 			fmt.Printf("O1 %s\n   into: %s\n   load: %s\n", opt, ra, rb)
 		}
@@ -1868,4 +1881,96 @@ func (m *c50o) ruleO5(w *c50execFn, readers []*c50execFn) {
 			}
 		}
 	}
+}
+
+func c50firstKey(m map[string]string, v string) string {
+	var ks []string
+	for k, o := range m {
+		if o == v {
+			ks = append(ks, k)
+		}
+	}
+	sort.Strings(ks)
+	if len(ks) == 0 {
+		return ""
+	}
+	return ks[0]
+}
+
+var c50rePath = regexp.MustCompile(`\$(?:\.[A-Za-z_0-9]+)+`)
+
+// ruleD2: per option, the statement field paths that the override (value and guards) draws on are the same for both nodes.
+func (m *c50o) ruleD2() {
+	c := m.c
+	ovs, _ := m.overrides()
+	paths := map[string]map[string]map[string]bool{m.nm.intoType: {}, m.nm.loadType: {}}
+	first := map[string]token.Pos{}
+	for _, ov := range ovs {
+		gs, ok := ov.fn.guards(ov.as)
+		if !ok {
+			c.Undecided("C50-D2", ov.opt, ov.as.Pos(), "assignment not found in the control-flow graph of "+ov.fn.name)
+			return
+		}
+		drop := m.creationGuards(ov)
+		set := paths[ov.side][ov.opt]
+		if set == nil {
+			set = map[string]bool{}
+			paths[ov.side][ov.opt] = set
+		}
+		if _, seen := first[ov.side+"."+ov.opt]; !seen {
+			first[ov.side+"."+ov.opt] = ov.as.Pos()
+		}
+		add := func(text string) {
+			for _, p := range c50rePath.FindAllString(text, -1) {
+				parts := strings.Split(p[2:], ".")
+				for i := 1; i <= len(parts); i++ {
+					set[strings.Join(parts[:i], ".")] = true
+				}
+			}
+		}
+		for _, a := range gs {
+			if !drop[a.String()] {
+				add(a.String())
+			}
+		}
+		if len(ov.as.Rhs) == len(ov.as.Lhs) {
+			add(ov.fn.cx.term(ov.as.Rhs[ov.idx]))
+		} else {
+			add(ov.fn.cx.term(ov.as.Rhs[0]))
+		}
+	}
+	render := func(set map[string]bool) string {
+		var ks []string
+		for k := range set {
+			ks = append(ks, k)
+		}
+		sort.Strings(ks)
+		return "{" + strings.Join(ks, ", ") + "}"
+	}
+	for _, f := range m.opts {
+		a, b := render(paths[m.nm.intoType][f]), render(paths[m.nm.loadType][f])
+		pos := first[m.nm.intoType+"."+f]
+		if !pos.IsValid() {
+			pos = first[m.nm.loadType+"."+f]
+		}
+		c.Check(a == b, "C50-D2", f, pos, a,
+			fmt.Sprintf("option %s is overridden from %s for %s but from %s for %s: the same FIELDS/LINES clause configures the writer and the reader differently", f, a, m.nm.intoType, b, m.nm.loadType))
+	}
+}
+
+// creationGuards: the literals that already hold where the node variable of the override is created.
+func (m *c50o) creationGuards(ov c50Override) map[string]bool {
+	drop := map[string]bool{}
+	if id, ok := ast.Unparen(ov.nodeX).(*ast.Ident); ok {
+		if o := ov.fn.pk.TypesInfo.Uses[id]; o != nil {
+			if ds := ov.fn.defStmt[o]; ds != nil {
+				if dg, ok := ov.fn.guards(ds); ok {
+					for _, a := range dg {
+						drop[a.String()] = true
+					}
+				}
+			}
+		}
+	}
+	return drop
 }
